@@ -134,6 +134,9 @@ type cliSpec struct {
 	SNI    string   `json:"sni,omitempty"`
 	Cert   string   `json:"cert,omitempty"` // client certificate: "", "A", "B"
 	Verify bool     `json:"verify,omitempty"`
+	// Raw: the ClientHello is written by the harness (client_version = MaxV,
+	// suites exactly as listed, no lower bound), not by crypto/tls.
+	Raw bool `json:"raw,omitempty"`
 }
 
 func (s *srvSpec) minV() uint16 {
@@ -300,7 +303,7 @@ func negotiate(s *srvSpec, c *cliSpec) negoModel {
 	if v > s.maxV() {
 		v = s.maxV()
 	}
-	if v < c.MinV {
+	if v < c.MinV && !c.Raw {
 		m.Why = "server max below client min"
 		return m
 	}
@@ -311,10 +314,10 @@ func negotiate(s *srvSpec, c *cliSpec) negoModel {
 	m.Vers = v
 	for _, id := range c.Suites {
 		si := suiteByID(id)
-		if si == nil || !si.Std {
+		if si == nil || (!si.Std && !c.Raw) {
 			continue
 		}
-		if si.TLS12 && c.MaxV < vTLS12 {
+		if si.TLS12 && c.MaxV < vTLS12 && !c.Raw {
 			continue // std client does not offer it
 		}
 		if suiteEnabled(s, c.SNI, id, v, c.Curves, true) {
